@@ -174,6 +174,8 @@ class FaultPlan(object):
                 continue
             if r.get("owner") is not None and r["owner"] != ev.get("owner"):
                 continue
+            if r.get("client_id") is not None and r["client_id"] != ev.get("client_id"):
+                continue
             if r.get("until") is not None and ev["t"] >= r["until"]:
                 continue
             if r.get("after") is not None and ev["t"] < r["after"]:
